@@ -2,7 +2,7 @@
 // with the real containers at DT_ = double, index type std::uint64_t/std::uint32_t, scalar (DenseVector) operands.
 // A separate result vector r is pre-filled with quiet NaNs, so that a kernel which accumulates into stale r-data
 // (instead of overwriting it) or skips a row is visible even where exact arithmetic hides it (0 * garbage = 0).
-// Output: "F n v_1 .. v_n" with %a hex floats ("nan" / "inf" for non-finite values).
+// "f32" runs the same at float. Output: "F n v_1 .. v_n" with %a hex floats ("nan" / "inf" for non-finite values).
 #include <forkcase.hpp>
 #include <kernel/lafem/dense_vector.hpp>
 #include <kernel/lafem/sparse_matrix_csr.hpp>
@@ -17,125 +17,16 @@ using namespace FEAT;
 using namespace FEAT::LAFEM;
 using verif::Cur;
 
-namespace
-{
-  typedef std::vector<double> DV;
-  typedef std::vector<std::size_t> NV;
+#define REAL double
+#define NS c01_f64
+#include "f64_impl.inc"
+#undef REAL
+#undef NS
+#define REAL float
+#define NS c01_f32
+#include "f64_impl.inc"
+#undef REAL
+#undef NS
 
-  double dparse(const std::string& s)
-  {
-    std::size_t p = s.find('/');
-    if(p == std::string::npos) return std::stod(s);
-    return std::stod(s.substr(0, p)) / std::stod(s.substr(p + 1));
-  }
-  DV dlist(Cur& c) { std::size_t n = c.idx(); DV v(n); for(auto& x : v) x = dparse(c.str()); return v; }
-
-  template<typename IT_> DenseVector<IT_, IT_> ivec(const NV& v) { DenseVector<IT_, IT_> r(Index(v.size())); for(Index i(0); i < Index(v.size()); ++i) r(i, IT_(v[i])); return r; }
-  template<typename IT_> DenseVector<double, IT_> dvec(const DV& v) { DenseVector<double, IT_> r(Index(v.size())); for(Index i(0); i < Index(v.size()); ++i) r(i, v[i]); return r; }
-
-  void show(std::ostream& o, const double* p, Index n)
-  {
-    o << "F " << n;
-    char buf[64];
-    for(Index i(0); i < n; ++i)
-    {
-      if(std::isnan(p[i])) o << " nan";
-      else if(std::isinf(p[i])) o << " inf";
-      else { std::snprintf(buf, sizeof(buf), "%a", p[i]); o << " " << buf; }
-    }
-  }
-
-  template<typename IT_, typename Mat_>
-  void run(std::ostream& o, const Mat_& a, const std::string& op, Cur& c, Index rows, Index cols)
-  {
-    double alpha = dparse(c.str()); DV xs = dlist(c), ys = dlist(c); bool alias = (c.idx() != 0);
-    const double nan = std::numeric_limits<double>::quiet_NaN();
-    const bool tr = (op == "applyT" || op == "axpyT");
-    const Index nr = tr ? cols : rows;
-    DenseVector<double, IT_> x(dvec<IT_>(xs));
-    if(op == "apply" || op == "applyT")
-    {
-      DenseVector<double, IT_> r(nr, nan);
-      if(tr) a.apply_transposed(r, x); else a.apply(r, x);
-      show(o, r.elements(), r.size());
-    }
-    else if(alias)
-    {
-      DenseVector<double, IT_> r(dvec<IT_>(ys));
-      if(tr) a.apply_transposed(r, x, r, alpha); else a.apply(r, x, r, alpha);
-      show(o, r.elements(), r.size());
-    }
-    else
-    {
-      DenseVector<double, IT_> y(dvec<IT_>(ys)); DenseVector<double, IT_> r(nr, nan);
-      if(tr) a.apply_transposed(r, x, y, alpha); else a.apply(r, x, y, alpha);
-      show(o, r.elements(), r.size());
-    }
-  }
-
-  template<typename IT_>
-  void go(const std::string& fmt, Cur& c, std::ostream& o)
-  {
-    if(fmt == "csr" || fmt == "cscr")
-    {
-      std::string op = c.str(); Index rows = c.idx(), cols = c.idx();
-      NV rp = c.idxlist(), ci = c.idxlist(); DV val = dlist(c);
-      NV rn; if(fmt == "cscr") rn = c.idxlist();
-      auto vci = ivec<IT_>(ci); auto vrp = ivec<IT_>(rp); auto vv = dvec<IT_>(val); auto vrn = ivec<IT_>(rn);
-      if(fmt == "csr")
-      {
-        SparseMatrixCSR<double, IT_> a;
-        if(val.empty()) a = SparseMatrixCSR<double, IT_>(rows, cols); else a = SparseMatrixCSR<double, IT_>(rows, cols, vci, vv, vrp);
-        run<IT_>(o, a, op, c, rows, cols);
-      }
-      else
-      {
-        SparseMatrixCSCR<double, IT_> a;
-        if(val.empty()) a = SparseMatrixCSCR<double, IT_>(rows, cols); else a = SparseMatrixCSCR<double, IT_>(rows, cols, vci, vv, vrp, vrn);
-        run<IT_>(o, a, op, c, rows, cols);
-      }
-    }
-    else if(fmt == "bcsr")
-    {
-      Index bh = c.idx(), bw = c.idx(); c.idx(); // vector kind: scalar vectors here
-      std::string op = c.str(); Index rows = c.idx(), cols = c.idx();
-      NV rp = c.idxlist(), ci = c.idxlist(); DV val = dlist(c);
-      auto vci = ivec<IT_>(ci); auto vrp = ivec<IT_>(rp); auto vv = dvec<IT_>(val);
-      auto doit = [&](auto th, auto tw)
-      {
-        constexpr int BH = decltype(th)::value, BW = decltype(tw)::value;
-        SparseMatrixBCSR<double, IT_, BH, BW> a;
-        if(val.empty()) a = SparseMatrixBCSR<double, IT_, BH, BW>(rows, cols); else a = SparseMatrixBCSR<double, IT_, BH, BW>(rows, cols, vci, vv, vrp);
-        run<IT_>(o, a, op, c, rows * Index(BH), cols * Index(BW));
-      };
-      typedef std::integral_constant<int, 1> I1; typedef std::integral_constant<int, 2> I2; typedef std::integral_constant<int, 3> I3;
-      if(bh == 2 && bw == 2) doit(I2(), I2()); else if(bh == 2 && bw == 3) doit(I2(), I3());
-      else if(bh == 3 && bw == 2) doit(I3(), I2()); else if(bh == 1 && bw == 1) doit(I1(), I1());
-      else o << "BAD-OP";
-    }
-    else if(fmt == "banded")
-    {
-      std::string op = c.str(); Index rows = c.idx(), cols = c.idx();
-      NV off = c.idxlist(); DV val = dlist(c);
-      auto voff = ivec<IT_>(off); auto vv = dvec<IT_>(val);
-      SparseMatrixBanded<double, IT_> a(rows, cols, vv, voff);
-      run<IT_>(o, a, op, c, rows, cols);
-    }
-    else o << "BAD-OP";
-  }
-}
-
-void handle_f64(Cur& c, std::ostream& o)
-{
-  std::string fmt = c.str();
-  if(fmt == "dense")
-  {
-    std::string op = c.str(); Index rows = c.idx(), cols = c.idx(); DV val = dlist(c);
-    DenseMatrix<double, Index> a(rows, cols);
-    for(Index i(0); i < rows; ++i) for(Index j(0); j < cols; ++j) a(i, j, val[i * cols + j]);
-    run<Index>(o, a, op, c, rows, cols);
-    return;
-  }
-  Index it = c.idx();
-  if(it == 32) go<std::uint32_t>(fmt, c, o); else go<std::uint64_t>(fmt, c, o);
-}
+void handle_f64(Cur& c, std::ostream& o) { c01_f64::handle(c, o); }
+void handle_f32(Cur& c, std::ostream& o) { c01_f32::handle(c, o); }
